@@ -246,6 +246,16 @@ class Folder:
                     return getattr(base, e.attr)
                 if isinstance(base, (int, Fraction)) and not isinstance(base, bool) and e.attr in ("numerator", "denominator"):
                     return getattr(base, e.attr)
+                if isinstance(base, ClassInfo) and self.repo is not None:
+                    # a member reached through a class held in a variable (`cls.helper`, `K.CONSTANT`)
+                    m_ = self.repo.lookup_method(base, e.attr)
+                    if m_ is not None:
+                        from .absint import FnRef
+
+                        return FnRef(self.repo, m_, self.hook)
+                    v_ = self.repo.lookup_class_attr(base, e.attr)
+                    if v_ is not None:
+                        return Folder({}, self.repo, base.module, base, self.hook).fold(v_)
                 if d.startswith("self.") and d.count(".") == 1 and self.cls is not None and self.repo is not None:
                     v = self.repo.lookup_class_attr(self.cls, e.attr)
                     if v is not None:
